@@ -158,8 +158,9 @@ EProds(h) ==
                                  CallN(Nm("sorted"), <<Comp("gen", El("I"), TrueL)>>),
                                  CallN(Nm("sorted"), <<Comp("set", El("I"), TrueL)>>),
                                  \* closures created in a comprehension share the iteration variable
-                                 Comp("list", N("lambda", "", 0, <<>>, <<>>, <<Nm("j")>>), TrueL),
-                                 Comp("list", CallN(N("lambda", "", 0, <<>>, <<>>, <<Nm("j")>>), <<>>), TrueL)}))
+                                 Comp("list", N("lambda", "", 0, <<>>, <<>>, <<Nm("j")>>), TrueL)}
+                           \cup (IF HasFlag(h, "c") THEN {} ELSE
+                                 {Comp("list", CallN(N("lambda", "", 0, <<>>, <<>>, <<Nm("j")>>), <<>>), TrueL)})))
           [] h.s = "P" ->        \* a sequence of two items
                {ConstT} \cup NameAtoms(h)
                \cup {Op("tuple", "", <<Hole("A", d, h.p, h.w, h.a), Hole("A", d, h.p, h.w, h.a)>>),
@@ -192,6 +193,8 @@ EProds(h) ==
 Tup(ts) == Op("tup", "", ts)
 Star(t) == Op("star", "", <<t>>)
 
+(* statement holes: "S" first narrows to a category (plain / augmented assignment, unpacking, item and attribute
+   targets, control flow), so that every category keeps a fair share of the random derivations *)
 SProds(h) ==
     LET EH(s) == Hole(s, EDepth, h.p, h.w, h.a)
         I0 == Hole("I", 0, h.p, <<>>, h.a)
@@ -201,32 +204,39 @@ SProds(h) ==
         LoopBody == Hole("S", h.i - 1, IF Has(h.p, lv) THEN h.p ELSE h.p \o <<lv>>, h.w, IF HasFlag(h, "loop") THEN h.a ELSE h.a \o <<"loop">>)
         Pairs == {<<m, n>> \in W \X W : m # n}
         Lst == Op("list", "", <<EH("A"), EH("A")>>)
-    IN  {Assign(Nm(n), EH(SortOf(n))) : n \in W}
-        \cup (IF Wide THEN {Assign(Nm(n), EH("A")) : n \in W} ELSE {})
-        \cup {Op("aug", o, <<Nm(n), EH("I")>>) : o \in {"+", "-", "*"}, n \in {m \in W : SortOf(m) # "Q"}}
-        \cup {Op("aug", "+", <<Nm(n), EH("Q")>>) : n \in {m \in W : SortOf(m) # "I"}}
-        \cup {Op("aug", "*", <<Nm(n), EH("I")>>) : n \in {m \in W : SortOf(m) = "Q"}}
-        \cup {Assign(Tup(<<Nm(pr[1]), Nm(pr[2])>>), EH("P")) : pr \in Pairs}
-        \cup {Assign(Tup(<<Nm(pr[1]), Star(Nm(pr[2]))>>), EH("P")) : pr \in Pairs}
-        \cup {Assign(Tup(<<Star(Nm(pr[1])), Nm(pr[2])>>), EH("P")) : pr \in Pairs}
-        \cup (IF Wide THEN {Assign(Tup(<<Nm(pr[1]), Star(Nm(pr[2]))>>), EH("Q")) : pr \in Pairs} ELSE {})
-        \cup {Assign(Tup(<<Tup(<<Nm(pr[1]), Nm(pr[2])>>), Nm(pr[1])>>), EH("PP")) : pr \in Pairs}
-        \* n = [.., ..]; n[k] = ..   /   n[k] += ..   (item assignment needs a list)
-        \cup {Block(<<Assign(Nm(n), Lst), Assign(Op("sub", "", <<Nm(n), I0>>), EH("A"))>>) : n \in W}
-        \cup {Block(<<Assign(Nm(n), Lst), Op("aug", "+", <<Op("sub", "", <<Nm(n), I0>>), EH("I")>>)>>) : n \in W}
-        \cup (IF Wide THEN {Assign(Op("sub", "", <<Nm(n), I0>>), EH("A")) : n \in W} ELSE {})
-        \cup {Op("expr", "", <<Op("log", "", <<EH("A")>>)>>)}
-        \cup (IF Wide THEN {Op("raise", "ValueError", <<EH("A")>>)} ELSE {})
-        \cup (IF HasFlag(h, "C") THEN {Assign(Op("attr", "w", <<Nm("o")>>), EH("I")), Assign(Op("attr", "v", <<Nm("o")>>), EH("Q")),
-                                       Op("aug", "+", <<Op("attr", "w", <<Nm("o")>>), EH("I")>>),
-                                       Op("aug", "+", <<Op("attr", "v", <<Nm("C")>>), EH("Q")>>),
-                                       Op("aug", "*", <<Op("attr", "v", <<Nm("o")>>), EH("I")>>)} ELSE {})
-        \cup (IF HasFlag(h, "m") THEN {Assign(Op("attr", "w", <<Nm("self")>>), EH("I")),
-                                       Op("aug", "+", <<Op("attr", "v", <<Nm("self")>>), EH("Q")>>)} ELSE {})
-        \cup (IF HasFlag(h, "ret") THEN {Ret(EH("A"))} ELSE {})
-        \cup (IF HasFlag(h, "loop") THEN {Leaf("break", "", 0), Leaf("continue", "", 0)} ELSE {})
-        \cup (IF h.i > 0 THEN {Op("if", "", <<EH("A"), S1, S1>>), Op("if", "", <<EH("A"), S1, PassS>>)} ELSE {})
-        \cup (IF h.i > 0 /\ (HasFlag(h, "f") \/ HasFlag(h, "h")) THEN {Op("for", "", <<Nm(lv), EH("Q"), LoopBody>>)} ELSE {})
+        Cat(c) == Hole(c, h.i, h.p, h.w, h.a)
+        Control == (IF HasFlag(h, "ret") THEN {Ret(EH("A"))} ELSE {})
+                   \cup (IF HasFlag(h, "loop") THEN {Leaf("break", "", 0), Leaf("continue", "", 0)} ELSE {})
+                   \cup (IF h.i > 0 THEN {Op("if", "", <<EH("A"), S1, S1>>), Op("if", "", <<EH("A"), S1, PassS>>)} ELSE {})
+                   \cup (IF h.i > 0 /\ (HasFlag(h, "f") \/ HasFlag(h, "h")) THEN {Op("for", "", <<Nm(lv), EH("Q"), LoopBody>>)} ELSE {})
+                   \cup {Op("expr", "", <<Op("log", "", <<EH("A")>>)>>)}
+                   \cup (IF Wide THEN {Op("raise", "ValueError", <<EH("A")>>)} ELSE {})
+    IN  CASE h.s = "S" -> {Cat("Sa"), Cat("Sg"), Cat("Sc")} \cup (IF Cardinality(W) >= 2 THEN {Cat("Su")} ELSE {}) \cup {Cat("Si")}
+          [] h.s = "Sa" ->
+                {Assign(Nm(n), EH(SortOf(n))) : n \in W}
+                \cup (IF Wide THEN {Assign(Nm(n), EH("A")) : n \in W} ELSE {})
+          [] h.s = "Sg" ->
+                {Op("aug", o, <<Nm(n), EH("I")>>) : o \in {"+", "-", "*"}, n \in {m \in W : SortOf(m) # "Q"}}
+                \cup {Op("aug", "+", <<Nm(n), EH("Q")>>) : n \in {m \in W : SortOf(m) # "I"}}
+                \cup {Op("aug", "*", <<Nm(n), EH("I")>>) : n \in {m \in W : SortOf(m) = "Q"}}
+          [] h.s = "Su" ->
+                {Assign(Tup(<<Nm(pr[1]), Nm(pr[2])>>), EH("P")) : pr \in Pairs}
+                \cup {Assign(Tup(<<Nm(pr[1]), Star(Nm(pr[2]))>>), EH("P")) : pr \in Pairs}
+                \cup {Assign(Tup(<<Star(Nm(pr[1])), Nm(pr[2])>>), EH("P")) : pr \in Pairs}
+                \cup (IF Wide THEN {Assign(Tup(<<Nm(pr[1]), Star(Nm(pr[2]))>>), EH("Q")) : pr \in Pairs} ELSE {})
+                \cup {Assign(Tup(<<Tup(<<Nm(pr[1]), Nm(pr[2])>>), Nm(pr[1])>>), EH("PP")) : pr \in Pairs}
+          [] h.s = "Si" ->
+                \* n = [.., ..]; n[k] = ..   /   n[k] += ..   (item assignment needs a list)
+                {Block(<<Assign(Nm(n), Lst), Assign(Op("sub", "", <<Nm(n), I0>>), EH("A"))>>) : n \in W}
+                \cup {Block(<<Assign(Nm(n), Lst), Op("aug", "+", <<Op("sub", "", <<Nm(n), I0>>), EH("I")>>)>>) : n \in W}
+                \cup (IF Wide THEN {Assign(Op("sub", "", <<Nm(n), I0>>), EH("A")) : n \in W} ELSE {})
+                \cup (IF HasFlag(h, "C") THEN {Assign(Op("attr", "w", <<Nm("o")>>), EH("I")), Assign(Op("attr", "v", <<Nm("o")>>), EH("Q")),
+                                               Op("aug", "+", <<Op("attr", "w", <<Nm("o")>>), EH("I")>>),
+                                               Op("aug", "+", <<Op("attr", "v", <<Nm("C")>>), EH("Q")>>),
+                                               Op("aug", "*", <<Op("attr", "v", <<Nm("o")>>), EH("I")>>)} ELSE {})
+                \cup (IF HasFlag(h, "m") THEN {Assign(Op("attr", "w", <<Nm("self")>>), EH("I")),
+                                               Op("aug", "+", <<Op("attr", "v", <<Nm("self")>>), EH("Q")>>)} ELSE {})
+          [] h.s = "Sc" -> Control
 
 (* def h(p, q=<atom>): [decl]; <0..1 statements>; return <expr>      or      h = lambda p, q=<atom>: <expr> *)
 DHProds(h) ==
@@ -263,7 +273,7 @@ DCProds(h) ==
             u \in BOOLEAN, ini \in BOOLEAN, decl \in {<<>>, <<"nonlocal", "x">>}, k \in {0, 1}}
 
 Prods(h) == CASE h.s \in {"I", "Q", "A", "P", "PP"} -> EProds(h)
-              [] h.s = "S" -> SProds(h)
+              [] h.s \in {"S", "Sa", "Sg", "Su", "Si", "Sc"} -> SProds(h)
               [] h.s \in {"DH", "DL"} -> DHProds(h)
               [] h.s = "DC" -> DCProds(h)
 
@@ -775,7 +785,14 @@ Eval(n, env, st) ==
       [] n.t = "bin" -> LET r == EvalOps(n.a, env, st)
                         IN  IF Bad(r.st) THEN R(r.st, VNone)
                             ELSE LET res == BinOp(n.s, r.vs[1], r.vs[2], r.st)
-                                 IN  IF res.st.exc # "" /\ IsLit(n.a[1]) /\ IsLit(n.a[2]) THEN R(Flag(res.st, {"constop"}), res.v) ELSE res
+                                     \* a one-character str literal ordered against an expression that Cython types as C bint
+                                     OneChr(x) == x.t = "str" /\ Len(x.s) = 1
+                                     Bint(x) == x.t \in {"not", "true"} \/ (x.t = "bin" /\ x.s = "in")
+                                                \/ (x.t = "call" /\ x.a[1].t = "name" /\ x.a[1].s = "isinstance")
+                                     f1 == IF res.st.exc # "" /\ IsLit(n.a[1]) /\ IsLit(n.a[2]) THEN {"constop"} ELSE {}
+                                     f2 == IF n.s = "<" /\ ((OneChr(n.a[1]) /\ Bint(n.a[2])) \/ (OneChr(n.a[2]) /\ Bint(n.a[1])))
+                                           THEN {"chrbint"} ELSE {}
+                                 IN  R(Flag(res.st, f1 \cup f2), res.v)
       [] n.t = "not" -> LET r == Eval(n.a[1], env, st) IN IF Bad(r.st) THEN r ELSE R(r.st, VBool(~Truth(r.v, r.st.heap)))
       [] n.t = "neg" -> LET r == Eval(n.a[1], env, st)
                         IN  IF Bad(r.st) THEN r ELSE IF IsInt(r.v) THEN R(r.st, VInt(0 - r.v.i)) ELSE TErr(r.st, "unary")
@@ -1020,7 +1037,7 @@ Obs(r) ==
     LET st == r.st
         hp == st.heap
         gr == IF "g" \in DOMAIN st.glob THEN ReprTop(st.glob["g"], hp) ELSE "<unbound>"
-        fl == {f \in {"stale", "skipcls", "clsname", "minmax", "constop"} : f \in st.fl}
+        fl == {f \in {"stale", "skipcls", "clsname", "minmax", "constop", "chrbint"} : f \in st.fl}
         base == [kind |-> "ret", ty |-> "", rp |-> "", site |-> "", log |-> st.log, g |-> gr, fl |-> fl]
     IN  IF st.oom \/ HasAt(gr) THEN [base EXCEPT !.kind = "oom"]
         ELSE IF st.exc # "" THEN [base EXCEPT !.kind = "exc", !.ty = st.exc, !.rp = st.eargs, !.site = st.esite]
